@@ -13,6 +13,20 @@ PROOF_NOTE = ("Trusted: Lean 4.33 kernel + axioms propext/Classical.choice/Quot.
               "tables/constants (Strophe/Gen). ")
 
 CLAIMED = {
+    "C03": dict(
+        engine="conn", design="5.3",
+        technique="Lean 4 invariant proofs over every operation history of the connection-machine model, statements over the log of everything written (with the server's offers of that attempt as ghost data at queue time) and of every notification; tied to auth.c/conn.c/handler.c by differential execution of scripted sessions on the real library + model-free transcript monitor",
+        text=("For EVERY history (all server scripts: conforming, reordering, repeating or omitting steps, wrong elements; client / "
+              "component / raw; SM on/off; resource given or not; repeated connect/disconnect cycles on one object): "
+              "requests_answer_offers (STARTTLS, the chosen SASL mechanism, compression, bind, session, SM enable/resume are only "
+              "requested when offered on that connection attempt), negotiation_order (RFC 6120 order; <starttls/> only on a not yet "
+              "secured stream; no <auth/> after <success/>), header_fields (to = configured domain, from only on a secured stream), "
+              "bind_resource, connect_once (CONNECT at most once per attempt), connect_implies_negotiated (only after authentication "
+              "and bind / resumption / handshake acknowledgement), no_user_callback_before_connect (stanza, id and timed handlers), "
+              "no_user_data_before_connect_partial (no user element reaches the wire before CONNECT; proved for histories without "
+              "xmpp_send_raw, which is the recorded known finding D13 with the machine-checked witness send_raw_before_connect), "
+              "negotiated_iff_notified. Eleven defects found through this property's proofs/monitor and repaired."),
+        note=PROOF_NOTE + "PARTIAL for the last clause only: xmpp_send_raw() is not gated by the negotiation (known finding C03:user-stanza-on-wire-before-connected); compression itself is C20's subject (here only its negotiation)."),
     "C02": dict(
         engine="conn", design="5.2",
         technique="Lean 4 invariant proofs over every operation history of the connection-machine model, statements over the log of everything written to the wire (with the user's flags at write time and the server's offers at queue time as ghost data); tied to auth.c/conn.c by differential execution of scripted sessions on the real library + model-free transcript monitor",
